@@ -23,9 +23,9 @@ import (
 func init() {
 	Register(&Check{
 		Spec: core.Spec{ID: "C14", Level: "exploration",
-			Rule: "two parts. (end to end) case = 2-4 writers ingesting and flushing continuously (each ack recorded with a logical tick), a merger looping with small limits, 4-12 query loops, over (a) MemDataStore that really deletes on tombstone + MemoryMetaStore and (b) FileSystemDataStore as both stores; PRNG delays at fs.scan.listed, mem.snapshot.taken, merge.beforeUpdate/afterUpdate, query.fileStage.next and at store calls; under -race. Per query: Err == nil => every matching row acked before the query's start tick appears exactly once; always: no row twice, no row never ingested. (mechanism) short concurrent histories (<= 4 clients, <= 40 ops) of MemoryMetaStore.Update and snapshot iterations with unique pointers, checked linearizable with porcupine against a set-of-pointers model. non-trivial = query whose lifetime overlapped a committed merge or a flush / porcupine history with overlapping ops; distinct = distinct (run, query index) / distinct histories",
+			Rule:        "two parts. (end to end) case = 2-4 writers ingesting and flushing continuously (each ack recorded with a logical tick), a merger looping with small limits, 4-12 query loops, over (a) MemDataStore that really deletes on tombstone + MemoryMetaStore and (b) FileSystemDataStore as both stores; PRNG delays at fs.scan.listed, mem.snapshot.taken, merge.beforeUpdate/afterUpdate, query.fileStage.next and at store calls; under -race. Per query: Err == nil => every matching row acked before the query's start tick appears exactly once; always: no row twice, no row never ingested. (mechanism) short concurrent histories (<= 4 clients, <= 40 ops) of MemoryMetaStore.Update and snapshot iterations with unique pointers, checked linearizable with porcupine against a set-of-pointers model. non-trivial = query whose lifetime overlapped a committed merge or a flush / porcupine history with overlapping ops; distinct = distinct (run, query index) / distinct histories",
 			Assumptions: []string{"'acknowledged before the query started' = the harness received the nil answer before it took the query's start tick", "porcupine Unknown (timeout) is inconclusive, never a violation"},
-			Floors: map[string]int64{"queries": 300, "queries_overlapping_merge": 30, "porcupine_histories": 50}},
+			Floors:      map[string]int64{"queries": 300, "queries_overlapping_merge": 30, "porcupine_histories": 50}},
 		Cases:       func(t string) int { return nQueries(t, 24, 500) },
 		Run:         runC14,
 		RaceMatters: true,
@@ -87,7 +87,7 @@ func runC14(rc *RunCtx, i int) {
 	pm := installPoints(r.Split("points"), true, 1500)
 	defer pm.uninstall(rc.Res)
 
-	var mu sync.Mutex // ledger
+	var mu sync.Mutex           // ledger
 	acked := map[string]int64{} // vid -> ack tick
 	ingested := map[string]bool{}
 	var merges []*c14Merge
